@@ -269,6 +269,16 @@ TREES = {
             {"k": "s", "name": "last", "tags": [], "desc": [], "steps": [st("star", "generic last")]},
         ]},
     ]},
+    "o-o": {"name": "Outline after outline", "tags": [], "desc": [], "bg": None, "items": [
+        {"k": "o", "name": "first outline", "tags": [], "desc": [], "steps": [st("given", "g <n>")],
+         "examples": [{"name": "", "tags": [], "table": [["n"], ["1"]]}]},
+        {"k": "o", "name": "second outline, step table", "tags": ["t2"], "desc": [], "steps": [st("given", "users", table=[["name", "role"], ["<n>", "admin"]]), st("then", "t <n>")],
+         "examples": [{"name": "E2", "tags": [], "table": [["n"], ["7"], ["8"]]}]},
+        {"k": "r", "name": "Rule with background table after outline", "tags": [], "desc": [],
+         "bg": {"name": "", "steps": [st("given", "rule bg", table=[["k"], ["v"]])]}, "items": [
+            {"k": "s", "name": "in rule", "tags": [], "desc": [], "steps": [st("when", "w1")]},
+        ]},
+    ]},
     "o-rule": {"name": "Rule after outline", "tags": [], "desc": [], "bg": None, "items": [
         {"k": "s", "name": "first", "tags": [], "desc": [], "steps": [st("given", "g1")]},
         {"k": "o", "name": "outline before rule", "tags": [], "desc": [], "steps": [st("given", "g <v>")],
